@@ -632,6 +632,8 @@ def seg_goals(W, out, cfg, Lmin, which, shift=None):
         W.lemma("C02/lemma:shift>=0", s >= 0)
         W.lemma("C02/lemma:shift>=1", z3.Implies(Kt > 1, s >= 1))
         W.lemma("C02/lemma:m*shift<=N-L", z3.Implies(cnt >= 2, z3.And(toreal(m) * s <= toreal(Nt - Lt), toreal(m + 1) * s <= toreal(Nt - Lt), toreal(m) * s >= 0)))
+        # the instance the last start needs: at the last index the ideal position is exactly N-L (an integer)
+        W.lemma("C02/lemma:(K-1)*shift=N-L at the last index", z3.And(*[z3.Implies(z3.And(c, ix == Kt - 1, Kt > 1), toreal(ix) * s == toreal(Nt - Lt)) for c, ix, v in D.tr]))
     if "C02" in which:
         W.goal("C02/K=navg=len(D)", z3.And(Kt == navg.t, D.len_ok))
         W.goal("C02/K>=1", Kt >= 1)
@@ -1108,7 +1110,8 @@ def ob_vec(W, part, fork_ifs=False, prior=False):
 
 _GOALS["vec-step"] = _GOALS["step"] + _GOALS["seg"] + ["C03/searchsorted-side-left", "C04/O=nominal-overlap", "C02/lemma:shift*(K-1)=N-L", "C02/lemma:shift>=0", "C02/lemma:m*shift<=N-L"]
 _GOALS["vec-step"].append("C02/lemma:shift>=1")
-for _l in ("C02/lemma:shift*(K-1)=N-L", "C02/lemma:shift>=0", "C02/lemma:m*shift<=N-L", "C02/lemma:shift>=1"):
+_GOALS["vec-step"].append("C02/lemma:(K-1)*shift=N-L at the last index")
+for _l in ("C02/lemma:shift*(K-1)=N-L", "C02/lemma:shift>=0", "C02/lemma:m*shift<=N-L", "C02/lemma:shift>=1", "C02/lemma:(K-1)*shift=N-L at the last index"):
     ALIAS[_l] = "C02/starts-in-range"
 _GOALS["vec-twostep"] = _GOALS["twostep"]
 _GOALS["vec-regime"] = _GOALS["regime"]
